@@ -184,3 +184,15 @@ void vb_stale_clear(cJSON *t)
         vb_stale_clear(c);
     }
 }
+
+void vb_payload(cJSON *t, int scheme)
+{
+    cJSON *c; int k;
+    if (!t) return;
+    k = t->type & 0xFF;
+    if (k != cJSON_Number) {
+        t->valueint = scheme ? ((k == cJSON_True) ? 0 : (k == cJSON_False) ? 1 : 77) : ((k == cJSON_True) ? 1 : (k == cJSON_False) ? 0 : -3);
+        t->valuedouble = scheme ? 2.5 : 0.0;
+    }
+    if (!(t->type & cJSON_IsReference)) for (c = t->child; c; c = c->next) vb_payload(c, scheme);
+}
